@@ -681,8 +681,8 @@ pub fn histories(quick: bool) -> Vec<Vec<COp>> {
         let mut next = vec![];
         for hst in &level {
             for o in &all {
-                // 1 MB requests (about 250 WAL frames each) only in histories of up to two requests
-                if *o == COp::Av1m && (depth == 2 || hst.contains(&COp::Av1m)) {
+                // 1 MB requests (about 250 WAL frames each) only alone or as the second request
+                if *o == COp::Av1m && (depth == 2 || hst.contains(&COp::Av1m) || hst.len() > 1) {
                     continue;
                 }
                 let mut h2 = hst.clone();
